@@ -143,7 +143,11 @@ func genHash(t *rapid.T) hashCase {
 // ---------------------------------------------------------------------------------------------
 // (c) NSEC3.Match / NSEC3.Cover over constructed intervals
 
-const findCoverOwner = "nsec3-cover-owner-hash" // DESIGN §4 #2
+const (
+	findCoverOwner = "nsec3-cover-owner-hash" // DESIGN §4 #2
+	findNextCase   = "nsec3-next-hash-case"   // zone text keeps the next hash in the case it was written in
+	findRootZone   = "nsec3-root-zone"        // owner name of a single label (root zone) never matches / covers
+)
 
 type coverCase struct {
 	Zone      [][]byte // wire labels of the zone (>= 1 label)
@@ -156,6 +160,8 @@ type coverCase struct {
 	ZoneText  string // presentation of the zone as it is put into the owner name (any case)
 	NameText  string // presentation of Name handed to Match/Cover (any case)
 	FromWire  bool   // the record is decoded from wire octets instead of being a struct literal
+	FromText  bool   // the record is read from presentation text by dns.NewRR (wins over FromWire)
+	NextText  string // FromText only: the next hashed owner name field as written (any letter case)
 	SkipCover bool   // set by the generator only: known-finding class, Cover is not asserted
 }
 
@@ -214,7 +220,10 @@ func strictlyInside(h, owner, next []byte) bool {
 
 func checkCover(c coverCase) error {
 	zone, name := ref.Labels(c.Zone), ref.Labels(c.Name)
-	if len(zone) == 0 || len(c.OwnerHash) != 20 || len(c.NextHash) != 20 {
+	if len(c.OwnerHash) != 20 || len(c.NextHash) != 20 {
+		return nil
+	}
+	if c.FromText && !strings.EqualFold(c.NextText, ref.Base32Hex(c.NextHash)) {
 		return nil
 	}
 	// the texts must denote the stated labels (replayed cases are not trusted)
@@ -235,11 +244,30 @@ func checkCover(c coverCase) error {
 	nontrivial := pos == "eq-owner" || pos == "eq-next" || shape == "wrapping"
 	pbt.Note([]byte(fmt.Sprintf("%s|%s|%x|%d|%x|%x", c.NameText, c.ZoneText, c.Salt, c.Iter, c.OwnerHash, c.NextHash)), nontrivial,
 		"shape="+shape, "pos="+pos, fmt.Sprintf("inzone=%v", in), fmt.Sprintf("cell=%s/%s/in=%v", shape, pos, in),
-		fmt.Sprintf("cover=%v", wantCover), fmt.Sprintf("match=%v", wantMatch), fmt.Sprintf("fromwire=%v", c.FromWire))
+		fmt.Sprintf("cover=%v", wantCover), fmt.Sprintf("match=%v", wantMatch), fmt.Sprintf("source=%s", map[bool]string{true: "text", false: map[bool]string{true: "wire", false: "literal"}[c.FromWire]}[c.FromText]),
+		fmt.Sprintf("rootzone=%v", len(zone) == 0))
 
 	ownerName := c.OwnerText + "." + c.ZoneText
+	if len(zone) == 0 {
+		ownerName = c.OwnerText + "."
+	}
 	var rr *dns.NSEC3
-	if c.FromWire {
+	if c.FromText {
+		// presentation format of RFC 5155 3.3; letter case of base32hex text is not significant (RFC 4648 section 7 alphabet is case-insensitive in DNS use, RFC 5155 examples are lower case)
+		salt := "-"
+		if len(c.Salt) > 0 {
+			salt = hex.EncodeToString(c.Salt)
+		}
+		txt := fmt.Sprintf("%s 3600 IN NSEC3 1 0 %d %s %s A", ownerName, c.Iter, salt, c.NextText)
+		x, err := dns.NewRR(txt)
+		if err != nil {
+			return pbt.Errf("NewRR(%q): %v", txt, err)
+		}
+		var ok bool
+		if rr, ok = x.(*dns.NSEC3); !ok {
+			return pbt.Errf("NewRR(%q) gave %T", txt, x)
+		}
+	} else if c.FromWire {
 		// the record as a server would send it: owner, TYPE 50, CLASS IN, TTL, RDATA (RFC 5155 3.2)
 		w := append(ref.Labels{[]byte(c.OwnerText)}, zone...).Wire()
 		w = binary.BigEndian.AppendUint16(w, 50)
@@ -325,7 +353,10 @@ func genCover(t *rapid.T) coverCase {
 	c := coverCase{}
 	plain := gen.NameOpts{MaxLabs: 3, MaxLabel: 8, Plain: rapid.IntRange(0, 2).Draw(t, "plain") > 0}
 	zone := gen.Name(t, plain)
-	if len(zone) == 0 {
+	if len(zone) == 0 && (rapid.IntRange(0, 3).Draw(t, "root") > 0 || pbt.Known(findRootZone)) {
+		if pbt.Known(findRootZone) {
+			pbt.Excluded(findRootZone)
+		}
 		zone = wm.Name{gen.Label(t, plain)}
 	}
 	c.Zone = zone
@@ -340,8 +371,13 @@ func genCover(t *rapid.T) coverCase {
 	} else {
 		switch rapid.IntRange(0, 3).Draw(t, "outk") {
 		case 0: // parent of the zone (or the root)
-			name = wm.Name(zone[1:]).Clone()
+			if len(zone) > 0 {
+				name = wm.Name(zone[1:]).Clone()
+			}
 		case 1: // last zone label extended: shares a text suffix but not a label suffix
+			if len(zone) == 0 {
+				break
+			}
 			name = zone.Clone()
 			name[0] = append([]byte{'x'}, name[0]...)
 			if len(name[0]) > 63 {
@@ -349,6 +385,9 @@ func genCover(t *rapid.T) coverCase {
 			}
 			name = append(wm.Name{[]byte("a")}, name...)
 		case 2: // sibling of the zone apex
+			if len(zone) == 0 {
+				break
+			}
 			sib := append([]byte("not-"), zone[0]...)
 			if len(sib) > 63 {
 				sib = sib[:63]
@@ -360,6 +399,7 @@ func genCover(t *rapid.T) coverCase {
 		if inZone(ref.Labels(name), ref.Labels(zone)) {
 			name = wm.Name{[]byte("outside")}
 		}
+		in = inZone(ref.Labels(name), ref.Labels(zone)) // everything is inside the root zone
 	}
 	c.Name = name
 	c.Salt = genSalt(t)
@@ -466,7 +506,22 @@ func genCover(t *rapid.T) coverCase {
 	c.OwnerText = flipCaseText(t, ref.Base32Hex(c.OwnerHash), "oc")
 	c.ZoneText = flipCaseText(t, wm.EscName(zone), "zc")
 	c.NameText = flipCaseText(t, wm.EscName(name), "nc")
-	c.FromWire = rapid.Bool().Draw(t, "fromwire")
+	switch rapid.IntRange(0, 2).Draw(t, "source") {
+	case 1:
+		c.FromWire = true
+	case 2:
+		c.FromText = true
+		c.NextText = flipCaseText(t, ref.Base32Hex(c.NextHash), "xc")
+		if c.NextText != strings.ToUpper(c.NextText) && pbt.Known(findNextCase) {
+			pbt.Excluded(findNextCase)
+			c.NextText = strings.ToUpper(c.NextText)
+		}
+		// the zone-file reader has its own rules for special characters in names; keep the text
+		// source to names that need no escapes (escaped owners are exercised by the other sources)
+		if strings.ContainsAny(c.ZoneText+c.NameText, "\\") {
+			c.FromText, c.NextText = false, ""
+		}
+	}
 	if in && bytes.Equal(to20(h), c.OwnerHash) && bytes.Compare(c.OwnerHash, c.NextHash) < 0 && pbt.Known(findCoverOwner) {
 		pbt.Excluded(findCoverOwner)
 		c.SkipCover = true
@@ -475,6 +530,20 @@ func genCover(t *rapid.T) coverCase {
 }
 
 func init() {
+	// RFC 5155 Appendix A: y.w.example (ji6neo...) exists and lies outside (b4um86..., gjeqe5...)
+	pbt.Probe(findNextCase, func() error {
+		salt := []byte{0xaa, 0xbb, 0xcc, 0xdd}
+		owner, _ := new(big.Int).SetString("593d6419d08c5bc35dca0a4dcb7ed5c131be2525", 16)
+		next, _ := new(big.Int).SetString("84dda71446cd56f0c116a57254baef69d09bce12", 16)
+		return checkCover(coverCase{Zone: [][]byte{[]byte("example")}, Name: [][]byte{[]byte("y"), []byte("w"), []byte("example")}, Salt: salt, Iter: 12,
+			OwnerHash: to20(owner), NextHash: to20(next), OwnerText: strings.ToLower(ref.Base32Hex(to20(owner))), ZoneText: "example.", NameText: "y.w.example.",
+			FromText: true, NextText: strings.ToLower(ref.Base32Hex(to20(next)))})
+	})
+	pbt.Probe(findRootZone, func() error {
+		name := ref.Labels{[]byte("a")}
+		h := ref.NSEC3HashRaw(name, nil, 0)
+		return checkCover(coverCase{Zone: nil, Name: name, Iter: 0, OwnerHash: h, NextHash: h, OwnerText: ref.Base32Hex(h), ZoneText: ".", NameText: "a."})
+	})
 	pbt.Register(pbt.Sub[hashCase]{Name: "nsec3-hash", Weight: 6, Gen: genHash, Check: checkHash})
 	pbt.Register(pbt.Sub[coverCase]{Name: "nsec3-match-cover", Weight: 10, Gen: genCover, Check: checkCover})
 	// DESIGN §4 #2: Cover is true for a name whose hash equals the owner hash (ordinary interval)
